@@ -1,11 +1,12 @@
 #!/bin/bash
-# seed_results.sh [parallel]: run every seeded change and every mutant against its check (quick tier) on scratch copies
+# seed_results.sh [parallel] ["ids"] [outfile]: run every seeded change and every mutant against its check (quick tier) on scratch copies
 # of /repo (bin/try_patch.sh) and write seeded/RESULTS.md
 cd "$(dirname "$0")/.."
 export GOFLAGS=-mod=mod GOPROXY=off GOSUMDB=off GOTOOLCHAIN=local
 P="${1:-3}"
 W=$(mktemp -d /tmp/seedres-XXXX)
-ids=$(python3 -c "import json;print(' '.join(c['property_id'] for c in json.load(open('MANIFEST.json'))['checks']))")
+ids="${2:-$(python3 -c "import json;print(' '.join(c['property_id'] for c in json.load(open('MANIFEST.json'))['checks']))")}"
+OUT="${3:-seeded/RESULTS.md}"
 for id in $ids; do
   for f in seeded/$id/patch.diff mutants/$id/*.diff; do [ -f "$f" ] && echo "$id $f"; done
 done > $W/list
@@ -27,6 +28,6 @@ echo
 echo "| check | change | exit | violation lines | first violation key |"
 echo "|---|---|---|---|---|"
 cat $W/*.row | sort
-} > seeded/RESULTS.md
+} > "$OUT"
 rm -rf $W
 echo done > /tmp/seed_results.done
